@@ -639,7 +639,9 @@ pub fn gen_case(rng: &mut Rng, cfg: &GenCfg) -> (usize, u64, Vec<String>) {
     let keys = ["k", "description", "p\"q\\\n", "é✓"];
     let vals = ["", "v", "w", "long value with spaces", "\u{1F600}\u{7}", "x"];
     let times: Vec<(i64, u32)> = vec![(100, 0), (100, 0), (200, 500), (50, 123000000), (1700000000, 999999999), (200, 500)];
-    let big = rng.chance(1, if cfg.stepped { 8 } else { 25 });
+    // (with --snapshots big values matter twice: a sync in several versions sees several urgency
+    // statements, and a snapshot larger than any internal buffer must still decode exactly)
+    let big = rng.chance(1, if cfg.snapshots || cfg.stepped { 8 } else { 25 });
     let len = 3 + rng.below(cfg.max_len as u64 - 2) as usize;
     let mut lines = vec![format!("R {}", nreps)];
     let mut stepping: Vec<bool> = vec![false; nreps];
@@ -659,6 +661,15 @@ pub fn gen_case(rng: &mut Rng, cfg: &GenCfg) -> (usize, u64, Vec<String>) {
             }
             lines.push(format!("C 0 create {}", 1 + rng.below(ntasks)));
             lines.push(format!("C 0 update {} {} {} 7 0", 1 + rng.below(ntasks), gen_str(rng, &keys), gen_str(rng, &vals)));
+            if big {
+                // the snapshot that is about to be made is large and full of multi-byte characters
+                let v = if rng.chance(1, 2) {
+                    format!("~{}~{}", 30000 + rng.below(60000), hex("é".as_bytes()))
+                } else {
+                    format!("~{}~{}", 20000 + rng.below(30000), hex("a\u{1F600}".as_bytes()))
+                };
+                lines.push(format!("C 0 update {} {} {} 8 0", 1 + rng.below(ntasks), gen_str(rng, &keys), v));
+            }
             lines.push("S 0 0 h".to_string());
             for r in 1..active {
                 lines.push(format!("S {} 1 n", r));
@@ -701,6 +712,40 @@ pub fn gen_case(rng: &mut Rng, cfg: &GenCfg) -> (usize, u64, Vec<String>) {
                 continue;
             }
         }
+        if cfg.snapshots && cfg.stepped && !stepping[r] && rng.chance(1, 150) {
+            // a sync that sends two versions; the server asks for a snapshot with the first one only
+            // (or with the second one only): what counts is what it says with the last one
+            let (first, last) = *rng.pick(&[("h", "n"), ("l", "n"), ("n", "h"), ("h", "l")]);
+            lines.push(format!("S {} 0 n", r));
+            lines.push(format!("C {} create {}", r, u));
+            lines.push(format!("C {} update {} {} ~{}~{} 9 0", r, u, gen_str(rng, &keys), 600000 + rng.below(200000), hex(b"a")));
+            lines.push(format!("C {} update {} {} ~{}~{} 9 1", r, u, gen_str(rng, &keys), 600000 + rng.below(200000), hex(b"b")));
+            lines.push(format!("B {} {}", r, rng.below(2)));
+            lines.push(format!("T {} n", r));
+            lines.push(format!("T {} {}", r, first));
+            lines.push(format!("T {} {}", r, last));
+            for _ in 0..4 {
+                lines.push(format!("T {} n", r));
+            }
+            stepping[r] = true;
+            continue;
+        }
+        if cfg.faults && rng.chance(1, 12) {
+            // the reply to an accepted version is lost, the same property is edited again with a
+            // timestamp that is not later (the clock stepped back, or the same second), then the
+            // replica synchronizes: it meets its own version with more pending behind it
+            let k = gen_str(rng, &keys);
+            let (s1, n1) = *rng.pick(&times);
+            let (s2, n2) = if rng.chance(1, 2) { (s1, n1) } else { *rng.pick(&times) };
+            lines.push(format!("C {} create {}", r, u));
+            lines.push(format!("S {} 0 n", r));
+            lines.push(format!("C {} update {} {} {} {} {}", r, u, k, gen_str(rng, &vals), s1, n1));
+            lines.push(format!("F {} 0 n 0 after 2", r));
+            lines.push("Q".to_string());
+            lines.push(format!("C {} update {} {} {} {} {}", r, u, k, gen_str(rng, &vals), s2, n2));
+            lines.push(format!("S {} 0 n", r));
+            continue;
+        }
         if cfg.foreign && rng.chance(1, 14) {
             let (s, n) = *rng.pick(&times);
             let mut parts = vec![format!("create {}", u)];
@@ -720,7 +765,12 @@ pub fn gen_case(rng: &mut Rng, cfg: &GenCfg) -> (usize, u64, Vec<String>) {
             let v = if rng.chance(1, 6) {
                 "-".to_string()
             } else if big && rng.chance(1, 2) {
-                format!("~{}~{}", 400000 + rng.below(300000), hex(rng.pick(&["a", "b"]).as_bytes()))
+                // long runs of 1-, 2- and 4-byte characters (200–700 kB)
+                match rng.below(4) {
+                    0 => format!("~{}~{}", 100000 + rng.below(150000), hex("é".as_bytes())),
+                    1 => format!("~{}~{}", 50000 + rng.below(80000), hex("a\u{1F600}".as_bytes())),
+                    _ => format!("~{}~{}", 400000 + rng.below(300000), hex(rng.pick(&["a", "b"]).as_bytes())),
+                }
             } else {
                 gen_str(rng, &vals)
             };
